@@ -18,7 +18,7 @@ CLAIMS["C14"] = {
     "note": "Recursion depth is bounded by the guard cutting the run->execute->result->run cycle; Python's stack behaviour is modelled, not run.",
 }
 
-ARR_NOTE = "Numeric content (that a formula is the documented one) is not decided. numpy behaviour enters only through the axioms A1-A24; an operation outside the analyser's vocabulary is ANALYSIS-ERROR (exit 2)."
+ARR_NOTE = "Numeric content (that a formula is the documented one) is not decided. numpy behaviour enters only through the axioms A1-A25; an operation outside the analyser's vocabulary is ANALYSIS-ERROR (exit 2)."
 CLAIMS["C02"] = {"engine": "C-arrays", "technique": "call-graph reachability (no clean at load), effect whitelist and return-kind abstract interpretation over 36 execute bodies",
     "text": "Decides order-independence structurally: Parameter.clean is unreachable from loading and the command table is looked up by name only in ResultParameter.clean (C02.a); execute bodies have no self/global/file effects outside I/O commands (C02.b); Metadata is never read (C02.c); every Data producer returns a MaskedArray given masked inputs, so any data result can feed any data input (C02.d). Equality with the mathematical evaluation is not decided.", "note": ARR_NOTE}
 CLAIMS["C03"] = {"engine": "C-arrays", "technique": "abstract interpretation: mask-coverage (must) vs value-dependence and hidden-payload (may) sets at every return of every data command",
@@ -100,6 +100,29 @@ ADDED4 = {
     "C19": "C19.a: the loading loop loads every requested library.",
     "C20": "C20.e: no cleaner tests membership in a string literal (substring test).",
 }
+ADDED5 = {
+    "C01": "C01.h: nothing that loading reaches consults the command table by a reference name (references resolve when the graph is evaluated, whatever the textual order).",
+    "C02": "C02.g restates C01.h; C02.h: a command defined by delegation evaluates its definition on the caller's arguments and the fuzzy defaults (C08.a's table); C02.b: no execute uses module-level state that functions mutate (a cache kept between executions).",
+    "C03": "C03.f: no command writes in place through an input's data or mask buffer (a result's missing cells are its own).",
+    "C04": "C04.e: no consumer writes in place through an input, so a clamped fuzzy result cannot be rescaled after the fact.",
+    "C05": "C05.c: the same-shape check compares the shapes themselves, not a projection of them (length-1 axes dropped, rank, size).",
+    "C06": "C06.c: slices of the form [n-k:] / [:-(n-k)] are modelled (the latter is empty for k = n); a slice object chosen per branch keeps its conditions; C06.f: operators leave their operands alone.",
+    "C07": "the join of an array with a number (an accumulator still at its initial 0 on some path) carries no mask coverage.",
+    "C08": "C08.a: a fuzzy default is supplied for every optional threshold the base would default in normalised space; C08.j: a conversion leaves its field unchanged; C08.k: category lookup is by equality.",
+    "C10": "C10.c: a number token that keeps its spelling must be converted by the action of `number` with the matching builtin (an int()/float() fallback turns over-long integers into inf); C10.f: escapes decoded by successive replacements are compared with one left-to-right pass over the same table on every short token body.",
+    "C11": "C11.f: an excerpt printed by one loop is accepted when the marker test is `index of the printed line == ex.lineno - 1` (linear normal form).",
+    "C12": "C12.a: every entry of the given arguments reaches the command (no value that counted as given is dropped); C12.c: `program is None` means the name cannot resolve; C12.g: a wrong kind answered with a foreign error is a violation too.",
+    "C13": "C13.a: int() of a float may raise OverflowError/ValueError (inf, nan); C13.d: __str__ never joins or concatenates a payload that is not text by construction.",
+    "C14": "C14.f: the finished flag is set only after execute's value was stored (never in finally/except), so a rejected cycle is found again on the next run.",
+    "C15": "C15.b: the reader's decoding (extracted from t_STRING: codec pair or replacement table) undoes the writer's escaping on every value of up to 4 characters over a 7-letter alphabet; C15.c: the element serialiser recognises the wrapper the loader uses for nested lists.",
+    "C16": "C16.c: named constants in the version test and in p_program are resolved.",
+    "C17": "C17.f: the reader opens the file on every path, keeps no module-level state between executions, and feeds csv.reader the file's own lines with their terminators.",
+    "C18": "C18.f: no shape-changing operation between the file variable and the result, nor before the write; C18.g: the output data model (format=) holds every integer width the reader's type table delivers.",
+    "C19": "C19.a: the loader never consults sys.modules (what is offered does not depend on import history).",
+    "C20": "C20.e: every return of ListParameter.clean is the item-wise clean (raw items handed back uncleaned keep the loader's wrappers).",
+}
+for _k, _v in ADDED5.items():
+    CLAIMS[_k]["text"] += " " + _v
 for _k, _v in ADDED4.items():
     CLAIMS[_k]["text"] += " " + _v
 for _k, _v in ADDED.items():
